@@ -10,7 +10,8 @@ from .tlaval import to_tla
 
 from txdbus import objects, interface, message
 
-ACTIONS = {'Incoming': ('c',), 'Fire': ('id', 'ok')}
+ACTIONS = {'Incoming': ('c',), 'Fire': ('id', 'ok'), 'FireShared': ('ok',)}
+KNOWN_SHARED = 'a failed Deferred shared by several calls: only the first caller gets the failure, the others a MarshallingError'
 OBS = ['ran', 'open', 'replies']
 
 I0, I1, I2 = 'org.v.I0', 'org.v.I1', 'org.v.I2'
@@ -22,6 +23,8 @@ CAT = {
     'Struct': (I1, 'Struct', '', '(si)', 'value', 'Struct', 1),
     'NoneRet': (I1, 'NoneRet', '', '', 'value', 'NoneRet', 1),
     'Defer': (I1, 'Defer', 's', 's', 'deferred', 'Defer', 1),
+    # one Deferred for all calls that arrive before it fires (a coalescing cache)
+    'Shared': (I1, 'Shared', '', 's', 'shared', 'Shared', 1),
     'RaiseNamed': (I1, 'RaiseNamed', '', '', 'raise', 'Err.Named', 1),
     'RaiseUnnamed': (I1, 'RaiseUnnamed', 's', 's', 'raise', 'Err.Unnamed', 1),
     'RaiseBadName': (I1, 'RaiseBadName', '', '', 'raise', 'Err.BadName', 1),
@@ -97,6 +100,10 @@ def build():
         def dbus_NoneRet(self):
             self.log('NoneRet', (), None)
 
+        def dbus_Shared(self):
+            self.log('Shared', (), None, 'shared')
+            return self.shared()
+
         def dbus_Defer(self, s):
             d = defer.Deferred()
             self.log('Defer', (s,), None, d)
@@ -151,7 +158,7 @@ def call_space(full):
 
     def c(path, iface, member, sigok, noreply):
         cs.append({'path': path, 'iface': iface, 'member': member, 'sigok': sigok, 'noreply': noreply})
-    keys = list(CAT) if full else ['Defer', 'Val', 'Both1', 'Both2']
+    keys = list(CAT) if full else ['Defer', 'Val', 'Both1', 'Both2', 'Shared']
     for k in keys:
         iface, member = CAT[k][0], CAT[k][1]
         c('/obj', iface, member, True, False)
@@ -196,7 +203,10 @@ class ObjectsDriver:
         self.runs = []
         self.cur = None
         self.deferreds = {}
+        self.shared_d = None
+        self.sharers = set()
         self.o = build()('/obj', self._log)
+        self.o.shared = self._shared
         # the path has a history: another object lived there and served a call before this one replaced it
         pre_if = interface.DBusInterface('org.v.Pre', interface.Method('Val', arguments='s', returns='s'), noRegister=True)
 
@@ -222,8 +232,15 @@ class ObjectsDriver:
 
     def _log(self, key, args, caller, d=None):
         self.runs.append((self.cur, key, args, caller))
-        if d is not None:
+        if d == 'shared':
+            self.sharers.add(self.cur)
+        elif d is not None:
             self.deferreds[self.cur] = d
+
+    def _shared(self):
+        if self.shared_d is None:
+            self.shared_d = defer.Deferred()
+        return self.shared_d
 
     def apply(self, name, args):
         if name == 'Incoming':
@@ -250,6 +267,13 @@ class ObjectsDriver:
                 self.h.handleMethodCallMessage(pm)
             finally:
                 self.cur = None
+        elif name == 'FireShared':
+            d, self.shared_d = self.shared_d, None
+            self.sharers = set()
+            if args[0]:
+                d.callback('sh')
+            else:
+                d.errback(DeferredError('later'))
         elif name == 'Fire':
             cid, ok = args
             d = self.deferreds.pop(cid)
@@ -286,11 +310,13 @@ class ObjectsDriver:
             key = find_key(c)
             if key in ('Unenc', 'Arity') and n.startswith('org.txdbus.PythonException.'):
                 return 'Err.Unencodable'
+            if key == 'Shared' and n == 'org.txdbus.PythonException.MarshallingError':
+                return 'Err.SharedLost'
             return '?error %s %r' % (n, text)
         key = find_key(c)
         want = {'Val': ['v:' + arg], 'Multi': ['m', 7], 'Arr': [['solo']], 'Struct': [['t', 3]], 'NoneRet': None,
                 'Defer': ['d:' + arg], 'Caller': [sender], 'Both1': ['one:' + sender], 'Both2': ['two'],
-                'Old': ['old:' + arg], 'Inh': ['inh']}.get(key, '?')
+                'Old': ['old:' + arg], 'Inh': ['inh'], 'Shared': ['sh']}.get(key, '?')
         body = m.body if m.body else None
         sig_ok = (m.signature or '') == CAT[key][3] if key else False
         return key if body == want and sig_ok else '?return %r sig %r' % (m.body, m.signature)
@@ -332,7 +358,7 @@ class ObjectsDriver:
         wrong = [m for m in self.conn2.sent if m._messageType in (2, 3)]
         if wrong:
             ran.append(-1000 - len(wrong))         # replies that left on the other connection
-        return {'ran': tuple(ran), 'open': frozenset(self.deferreds), 'replies': tuple(tuple(replies[i]) for i in sorted(replies))}
+        return {'ran': tuple(ran), 'open': frozenset(self.deferreds) | frozenset(self.sharers), 'replies': tuple(tuple(replies[i]) for i in sorted(replies))}
 
 
 def make_driver(params, acts):
@@ -343,7 +369,7 @@ replay_file = core.replay_file
 
 
 def trace_cfg(params=None):
-    return 'CONSTANTS\n MaxCalls = 50\n'
+    return 'CONSTANTS\n MaxCalls = 50\n SharedFailureOnce = TRUE\n'
 
 
 def rerecord(params, acts):
@@ -364,7 +390,7 @@ def run(tier, seed):
     chk = core.Check('C10', tier, seed)
     rng = random.Random(seed)
     thorough = tier == 'thorough'
-    cfg = 'SPECIFICATION Spec\nCONSTANTS\n MaxCalls = %d\n' + ''.join('INVARIANT %s\n' % i for i in INVS) + 'CHECK_DEADLOCK FALSE\n'
+    cfg = 'SPECIFICATION Spec\nCONSTANTS\n MaxCalls = %d\n SharedFailureOnce = TRUE\n' + ''.join('INVARIANT %s\n' % i for i in INVS) + 'CHECK_DEADLOCK FALSE\n'
     for label, full, mc in (('every call shape', True, 2 if thorough else 1), ('interleaved deferreds', False, 4 if thorough else 3)):
         extra = {'ObjectsData.tla': data_module(full), 'o.cfg': cfg % mc}
         res, g = tlc.dump_graph('Objects', 'o.cfg', extra=extra, timeout=600)
@@ -379,6 +405,26 @@ def run(tier, seed):
         if not full:
             core.replay_paths(chk, g, list(core.random_walks(g, 3000 if thorough else 600, 9, rng)), lambda acts: ObjectsDriver(),
                               label + ' walks', 'c10', {})
+    # known finding (findings/known_findings.json): a failed Deferred shared by several calls.  The model as the code
+    # behaves (SharedFailureOnce) violates SharedFailureUniform - checked, so that the finding stays tied to the model -
+    # and the real objects are probed: the day the second caller gets the failure too, the listed finding no longer
+    # shows and the as-code model stops matching (an unlisted violation says so)
+    res, _ = tlc.run('Objects', 'k.cfg', extra={'ObjectsData.tla': data_module(False), 'k.cfg': (cfg % 3).replace(
+        'CHECK_DEADLOCK', 'INVARIANT SharedFailureUniform\nCHECK_DEADLOCK')}, timeout=300)
+    chk.tlc_stats(res, 'Objects: SharedFailureUniform under the as-code deviation (must fail)')
+    chk.notes['deviation_SharedFailureOnce_violates_SharedFailureUniform'] = res.violation is not None
+    if res.violation is None:
+        raise core.Machinery('Objects: SharedFailureOnce no longer violates SharedFailureUniform')
+    drv = ObjectsDriver()
+    shared_call = [c for c in call_space(False) if c['member'] == 'Shared' and not c['noreply']][0]
+    drv.apply('Incoming', (shared_call,))
+    drv.apply('Incoming', (shared_call,))
+    drv.apply('FireShared', (False,))
+    tags = [r[0]['tag'] if r else None for r in drv.project()['replies']]
+    if tags == ['Err.Deferred', 'Err.SharedLost']:
+        chk.violation(KNOWN_SHARED, dict(kind='known finding probe', module='c10', tags=tags))
+    elif tags != ['Err.Deferred', 'Err.Deferred']:
+        chk.violation('a failed Deferred shared by two calls is answered %r' % (tags,), dict(kind='probe', module='c10', tags=tags))
     # code -> spec: longer random call streams over the full call space with Deferreds firing at random
     space = call_space(True)
     batch = []
@@ -387,7 +433,9 @@ def run(tier, seed):
         tr = [({'n': 'Init'}, drv.project())]
         try:
             for _ in range(rng.randint(4, 14)):
-                if drv.deferreds and rng.random() < 0.35:
+                if drv.sharers and rng.random() < 0.25:
+                    a = ('FireShared', (rng.random() < 0.6,))
+                elif drv.deferreds and rng.random() < 0.35:
                     a = ('Fire', (rng.choice(sorted(drv.deferreds)), rng.random() < 0.6))
                 else:
                     a = ('Incoming', (rng.choice(space),))
